@@ -401,15 +401,40 @@ func c06Suppression(c *Ctx, t *checkTables) {
 		if fn == nil || fn.Name() != "checkCommentLineForCheckIgnore" {
 			return true
 		}
+		// decided on SSA so that `if a && b { … }` and the guard-clause form `if !a || !b { return }` read the same: the
+		// call lies on the edge where AllowCommentIgnores holds and on the edge where CommentIgnorePrefix != ""
 		okG := false
-		for cur := p.Parent(call); cur != nil && cur != il.Decl; cur = p.Parent(cur) {
-			if ifs, ok := cur.(*ast.IfStmt); ok {
-				s := exprString(ifs.Cond)
-				if strings.Contains(s, "AllowCommentIgnores") && strings.Contains(s, "CommentIgnorePrefix") && usesObj(info, ifs.Cond, cfgObj) {
-					if be, ok := ast.Unparen(ifs.Cond).(*ast.BinaryExpr); ok && be.Op == token.LAND {
-						okG = true
+		if ssaIL := p.SSAFunc(il.Obj); ssaIL != nil {
+			fieldLoad := func(v ssa.Value, name string) bool {
+				v = stripConv(v)
+				if u, ok := v.(*ssa.UnOp); ok && u.Op == token.MUL {
+					if fa, ok := u.X.(*ssa.FieldAddr); ok {
+						return strings.HasSuffix(fieldName(fa.X.Type(), fa.Field), "."+name)
 					}
 				}
+				if f, ok := v.(*ssa.Field); ok {
+					return strings.HasSuffix(fieldName(f.X.Type(), f.Field), "."+name)
+				}
+				return false
+			}
+			for _, sc := range callsIn(ssaIL) {
+				if o := staticCalleeObj(sc.Call); o == nil || o.Name() != "checkCommentLineForCheckIgnore" {
+					continue
+				}
+				allow, prefix := false, false
+				for _, ge := range guardingEdges(sc.Instr.Block()) {
+					cv, pos := condPolarity(ge.If.Cond)
+					holds := ge.Branch == pos
+					if fieldLoad(cv, "AllowCommentIgnores") && holds {
+						allow = true
+					}
+					if bo, ok := cv.(*ssa.BinOp); ok && (fieldLoad(bo.X, "CommentIgnorePrefix") || fieldLoad(bo.Y, "CommentIgnorePrefix")) {
+						if (bo.Op == token.NEQ && holds) || (bo.Op == token.EQL && !holds) {
+							prefix = true
+						}
+					}
+				}
+				okG = allow && prefix
 			}
 		}
 		c.Ob(rule, "ignoreFileLocation/comment-directives-gated", call.Pos(), okG, true, "comment directives are consulted only under AllowCommentIgnores && CommentIgnorePrefix != \"\": %v", okG)
